@@ -51,7 +51,14 @@ func labelHash(parts ...string) string {
 var reachRe = regexp.MustCompile(`verifReach\("([^"]+)"\)`)
 
 // staticReachLabels extracts the verifReach labels written in the harness body.
-func staticReachLabels(h *harnessInfo) []string {
+func staticReachLabels(h *harnessInfo) []string { return staticLabels(h, "verifReach") }
+
+// staticSupportLabels: labels of verifSupport calls. Such a label states that an outcome HAS
+// positive probability; if no path of a complete exploration reaches it the property (not the
+// harness) is violated.
+func staticSupportLabels(h *harnessInfo) []string { return staticLabels(h, "verifSupport") }
+
+func staticLabels(h *harnessInfo, fname string) []string {
 	decl, ok := h.fn.Syntax().(*ast.FuncDecl)
 	if !ok {
 		return nil
@@ -62,7 +69,7 @@ func staticReachLabels(h *harnessInfo) []string {
 		if !ok {
 			return true
 		}
-		if id, ok := call.Fun.(*ast.Ident); ok && id.Name == "verifReach" && len(call.Args) == 1 {
+		if id, ok := call.Fun.(*ast.Ident); ok && id.Name == fname && len(call.Args) == 1 {
 			if lit, ok := call.Args[0].(*ast.BasicLit); ok {
 				out = append(out, strings.Trim(lit.Value, `"`))
 			}
@@ -73,7 +80,7 @@ func staticReachLabels(h *harnessInfo) []string {
 }
 
 func (r *report) evaluate(hs []*harnessInfo, stats []*interp.HarnessStats, rb *replayBuilder) int {
-	rdir := filepath.Join(*verifDir, "replays", r.prop)
+	rdir := filepath.Join(*verifDir, "replays", r.prop+os.Getenv("GOSYM_BUILD_SUFFIX"))
 	if *filter == "" {
 		os.RemoveAll(rdir)
 	}
@@ -217,6 +224,60 @@ func (r *report) evaluate(hs []*harnessInfo, stats []*interp.HarnessStats, rb *r
 				if st.Reaches[lab] == 0 {
 					r.vacuous = append(r.vacuous, fmt.Sprintf("%s: label %q never reached", h.fn.Name(), lab))
 				}
+			}
+		}
+		// support claims: an outcome that no path of the complete exploration produces
+		if sl := staticSupportLabels(h); len(sl) > 0 && !isK {
+			exhaustive := complete
+			for status := range st.Paths {
+				switch status {
+				case "ok", "assume", "stopped":
+				default:
+					exhaustive = false
+				}
+			}
+			for _, lab := range sl {
+				if st.Reaches[lab] > 0 {
+					continue
+				}
+				if !exhaustive {
+					r.inconclusive++
+					r.notes = append(r.notes, fmt.Sprintf("INCONCLUSIVE %s: outcome %q not reached, but the exploration was not exhaustive", h.fn.Name(), lab))
+					continue
+				}
+				npaths := 0
+				for _, n := range st.Paths {
+					npaths += n
+				}
+				msg := fmt.Sprintf("no outcome of the random draws produces it (%d paths, exploration exhaustive within the bounds)", npaths)
+				path := filepath.Join(rdir, fmt.Sprintf("%s-%s.json", h.fn.Name(), labelHash("support", lab, "", "")))
+				data, _ := json.MarshalIndent(map[string]interface{}{
+					"property": r.prop, "harness": h.fn.Name(), "kind": "support", "label": lab, "msg": msg, "tape": []interface{}{},
+				}, "", " ")
+				os.WriteFile(path, data, 0o644)
+				v := verdict{Harness: h.fn.Name(), Kind: "support", Label: lab, Msg: msg, Replay: path, Class: "violation", Native: "not replayed"}
+				if !*noReplay {
+					reachedNatively, n, err := rb.sample(h.pkgDir, path, knownKeys, lab)
+					switch {
+					case err != nil:
+						v.Class, v.Native = "inconclusive", "sampling failed: "+err.Error()
+					case reachedNatively:
+						v.Class, v.Native = "spurious", fmt.Sprintf("the native build produced the outcome within %d random runs", n)
+					default:
+						v.Native = fmt.Sprintf("outcome not produced in %d native runs with the real generator", n)
+					}
+				}
+				switch v.Class {
+				case "violation":
+					if isW {
+						v.Class = "witness"
+					} else {
+						violation = true
+					}
+				default:
+					r.inconclusive++
+				}
+				r.verdicts = append(r.verdicts, v)
 			}
 		}
 		// inconclusive paths
